@@ -64,7 +64,9 @@ func (s *Service) serviceRequestWithTarget(w http.ResponseWriter, r *http.Reques
 
 const tgtChain = tgtHead + `
 func (t *Target) HealthCheckCompleted(success bool) {
+	var previousState, newState TargetState
 	becameHealthy := false
+
 	t.withInflightLock(func() {
 		previousState = t.state
 		switch success {
